@@ -38,10 +38,12 @@ type Ledger struct {
 	flights map[string]*flight // packet key -> flight
 	order   []string
 	serial  int
+	vburnt  map[string]uint64 // MT: units of vouchers burnt by their holders, per "identity|hops"
+	depth   map[pos]int       // MT: number of hops between a position and the native position it descends from
 }
 
 func newLedger() *Ledger {
-	return &Ledger{from: map[pos]string{}, ident: map[pos]string{}, burnt: map[string]bool{}, minted: map[string]uint64{}, flights: map[string]*flight{}}
+	return &Ledger{vburnt: map[string]uint64{}, depth: map[pos]int{}, from: map[pos]string{}, ident: map[pos]string{}, burnt: map[string]bool{}, minted: map[string]uint64{}, flights: map[string]*flight{}}
 }
 
 func fkey(p packettypes.Packet) string { return pkeyStr(p) }
@@ -313,6 +315,7 @@ func (g *TransferGen) mtAfterMint(c *tibctesting.TestChain, class, id string, am
 	t := fmt.Sprintf("%s:%s:%s", c.ChainName, class, id)
 	g.led.ident[p] = t
 	g.led.minted[t] += amount
+	g.led.depth[p] = 0
 }
 
 func (g *TransferGen) mtAfterBurn(c *tibctesting.TestChain, class, id string, amount uint64, res *abci.ExecTxResult) {
@@ -321,6 +324,10 @@ func (g *TransferGen) mtAfterBurn(c *tibctesting.TestChain, class, id string, am
 	}
 	if t, ok := g.led.ident[pos{c.ChainName, class, id}]; ok {
 		g.led.minted[t] -= amount
+		if d := g.led.depth[pos{c.ChainName, class, id}]; d >= 1 {
+			// a holder may destroy vouchers; the units escrowed for them stay behind for good
+			g.led.vburnt[fmt.Sprintf("%s|%d", t, d)] += amount
+		}
 	}
 }
 
@@ -387,6 +394,17 @@ func (g *TransferGen) mtAfterRecv(c *tibctesting.TestChain, p packettypes.Packet
 				g.w.hit("C05", fmt.Sprintf("units-credited-under-a-position-of-another-token %s", fkey(p)))
 			}
 			g.led.ident[kp] = fl.tok
+			if _, seen := g.led.depth[kp]; !seen {
+				// by provenance: a transfer returns iff it goes to the chain the voucher came from
+				if d, ok := g.led.depth[fl.srcPos]; ok {
+					if prev, isVoucher := g.led.from[fl.srcPos]; isVoucher && prev == c.ChainName {
+						g.led.depth[kp] = d - 1
+					} else {
+						g.led.depth[kp] = d + 1
+						g.led.from[kp] = p.SourceChain
+					}
+				}
+			}
 		}
 	}
 }
@@ -466,9 +484,77 @@ func (g *TransferGen) mtConservation() {
 	}
 }
 
+// mtEscrowBacking: every unit that exists d >= 1 hops away from its native class (whoever holds
+// it, the transfer module included), or is on its way between the two levels, is backed by
+// exactly one unit in the transfer module's account one hop nearer to the origin:
+//
+//	sum over positions at depth d of the supply there
+//
+// + units sent away from depth d-1 and neither delivered nor refunded
+// + units sent back from depth d and neither delivered nor refunded
+// + vouchers at depth d destroyed by their holders (MsgBurnMT), whose backing stays locked
+// = sum over positions at depth d-1 of the module account's balance.
+func (g *TransferGen) mtEscrowBacking() {
+	type lv struct {
+		tok string
+		d   int
+	}
+	need := map[lv]uint64{}
+	have := map[lv]uint64{}
+	for _, c := range g.w.Chains {
+		st := mtState(c)
+		for k, v := range st.bal {
+			parts := strings.Split(k, "\x00")
+			kp := pos{c.ChainName, parts[0], parts[1]}
+			tok, ok := g.led.ident[kp]
+			d, okd := g.led.depth[kp]
+			if !ok || !okd {
+				continue
+			}
+			if d >= 1 {
+				need[lv{tok, d}] += v
+			}
+			if g.w.isModule(parts[2]) {
+				have[lv{tok, d + 1}] += v
+			}
+		}
+	}
+	for _, fl := range g.led.flights {
+		d, okd := g.led.depth[fl.srcPos]
+		if fl.done || !okd || strings.HasPrefix(fl.tok, "untracked:") {
+			continue
+		}
+		if prev, isVoucher := g.led.from[fl.srcPos]; isVoucher && prev == fl.pkt.DestinationChain {
+			need[lv{fl.tok, d}] += fl.amount
+		} else {
+			need[lv{fl.tok, d + 1}] += fl.amount
+		}
+	}
+	for k, v := range g.led.vburnt {
+		i := strings.LastIndex(k, "|")
+		var d int
+		fmt.Sscan(k[i+1:], &d)
+		need[lv{k[:i], d}] += v
+	}
+	keys := map[lv]bool{}
+	for k := range need {
+		keys[k] = true
+	}
+	for k := range have {
+		keys[k] = true
+	}
+	for k := range keys {
+		if need[k] != have[k] && !g.led.burnt["escrow:"+k.tok] {
+			g.w.hit("C05", fmt.Sprintf("escrow-does-not-back-circulation token=%s hops=%d units-downstream-or-in-flight=%d escrowed-one-hop-nearer=%d", k.tok, k.d, need[k], have[k]))
+			g.led.burnt["escrow:"+k.tok] = true
+		}
+	}
+}
+
 func (g *TransferGen) tokenOracles() {
 	if g.mt {
 		g.mtConservation()
+		g.mtEscrowBacking()
 	} else {
 		g.nftHolderCount()
 	}
